@@ -14,7 +14,8 @@ Local Open Scope N_scope.
 Inductive meth := MGet | MHead | MConnect.
 Inductive hfr := HNone | HLen (n : N) | HChunked.
 Record head := mkHead { h_fwd : bytes; h_meth : meth; h_fr : hfr; h_host : N; h_hashost : bool;
-                        h_valid : bool; h_exp : bool; h_close : bool; h_status : N }.
+                        h_valid : bool; h_exp : bool; h_close : bool; h_status : N;
+                        h_ws : bool (* request: Sec-WebSocket-Version 13; response: Upgrade: websocket *) }.
 Inductive esz := EChunked | EEof | ESz (n : N).
 
 Definition meth_eqb (a b : meth) : bool :=
@@ -104,33 +105,33 @@ Record stream := mkStream {
   req_fin : bool         (* RequestEndOfMessage or RequestProtocolError handled *);
   resp_fin : bool        (* ResponseEndOfMessage or ResponseProtocolError handled *);
   venv : bool            (* an event was handled that the connection layers never deliver in that situation *);
-  vgap : bool            (* a response-side event was handled after the flow had been aborted towards the server *) }.
+  fws : bool             (* flow.websocket is set (send_response classified the response as a WebSocket handshake) *) }.
 
-Definition upd_sid (v : N) (s : stream) : stream := {| sid := v; cs := cs s; ss := ss s; pc := pc s; queue := queue s; req := req s; req_content := req_content s; req_stream := req_stream s; fresp := fresp s; ferr := ferr s; live := live s; reqbuf := reqbuf s; respbuf := respbuf s; srv := srv s; hooks := hooks s; upstream := upstream s; tunnel := tunnel s; crashed := crashed s; msum := msum s; aborted := aborted s; reqerr_h := reqerr_h s; req_fin := req_fin s; resp_fin := resp_fin s; venv := venv s; vgap := vgap s |}.
-Definition upd_cs (v : sst) (s : stream) : stream := {| sid := sid s; cs := v; ss := ss s; pc := pc s; queue := queue s; req := req s; req_content := req_content s; req_stream := req_stream s; fresp := fresp s; ferr := ferr s; live := live s; reqbuf := reqbuf s; respbuf := respbuf s; srv := srv s; hooks := hooks s; upstream := upstream s; tunnel := tunnel s; crashed := crashed s; msum := msum s; aborted := aborted s; reqerr_h := reqerr_h s; req_fin := req_fin s; resp_fin := resp_fin s; venv := venv s; vgap := vgap s |}.
-Definition upd_ss (v : sst) (s : stream) : stream := {| sid := sid s; cs := cs s; ss := v; pc := pc s; queue := queue s; req := req s; req_content := req_content s; req_stream := req_stream s; fresp := fresp s; ferr := ferr s; live := live s; reqbuf := reqbuf s; respbuf := respbuf s; srv := srv s; hooks := hooks s; upstream := upstream s; tunnel := tunnel s; crashed := crashed s; msum := msum s; aborted := aborted s; reqerr_h := reqerr_h s; req_fin := req_fin s; resp_fin := resp_fin s; venv := venv s; vgap := vgap s |}.
-Definition upd_pc (v : option await) (s : stream) : stream := {| sid := sid s; cs := cs s; ss := ss s; pc := v; queue := queue s; req := req s; req_content := req_content s; req_stream := req_stream s; fresp := fresp s; ferr := ferr s; live := live s; reqbuf := reqbuf s; respbuf := respbuf s; srv := srv s; hooks := hooks s; upstream := upstream s; tunnel := tunnel s; crashed := crashed s; msum := msum s; aborted := aborted s; reqerr_h := reqerr_h s; req_fin := req_fin s; resp_fin := resp_fin s; venv := venv s; vgap := vgap s |}.
-Definition upd_queue (v : list hev) (s : stream) : stream := {| sid := sid s; cs := cs s; ss := ss s; pc := pc s; queue := v; req := req s; req_content := req_content s; req_stream := req_stream s; fresp := fresp s; ferr := ferr s; live := live s; reqbuf := reqbuf s; respbuf := respbuf s; srv := srv s; hooks := hooks s; upstream := upstream s; tunnel := tunnel s; crashed := crashed s; msum := msum s; aborted := aborted s; reqerr_h := reqerr_h s; req_fin := req_fin s; resp_fin := resp_fin s; venv := venv s; vgap := vgap s |}.
-Definition upd_req (v : option head) (s : stream) : stream := {| sid := sid s; cs := cs s; ss := ss s; pc := pc s; queue := queue s; req := v; req_content := req_content s; req_stream := req_stream s; fresp := fresp s; ferr := ferr s; live := live s; reqbuf := reqbuf s; respbuf := respbuf s; srv := srv s; hooks := hooks s; upstream := upstream s; tunnel := tunnel s; crashed := crashed s; msum := msum s; aborted := aborted s; reqerr_h := reqerr_h s; req_fin := req_fin s; resp_fin := resp_fin s; venv := venv s; vgap := vgap s |}.
-Definition upd_req_content (v : bytes) (s : stream) : stream := {| sid := sid s; cs := cs s; ss := ss s; pc := pc s; queue := queue s; req := req s; req_content := v; req_stream := req_stream s; fresp := fresp s; ferr := ferr s; live := live s; reqbuf := reqbuf s; respbuf := respbuf s; srv := srv s; hooks := hooks s; upstream := upstream s; tunnel := tunnel s; crashed := crashed s; msum := msum s; aborted := aborted s; reqerr_h := reqerr_h s; req_fin := req_fin s; resp_fin := resp_fin s; venv := venv s; vgap := vgap s |}.
-Definition upd_req_stream (v : bool) (s : stream) : stream := {| sid := sid s; cs := cs s; ss := ss s; pc := pc s; queue := queue s; req := req s; req_content := req_content s; req_stream := v; fresp := fresp s; ferr := ferr s; live := live s; reqbuf := reqbuf s; respbuf := respbuf s; srv := srv s; hooks := hooks s; upstream := upstream s; tunnel := tunnel s; crashed := crashed s; msum := msum s; aborted := aborted s; reqerr_h := reqerr_h s; req_fin := req_fin s; resp_fin := resp_fin s; venv := venv s; vgap := vgap s |}.
-Definition upd_fresp (v : option resp) (s : stream) : stream := {| sid := sid s; cs := cs s; ss := ss s; pc := pc s; queue := queue s; req := req s; req_content := req_content s; req_stream := req_stream s; fresp := v; ferr := ferr s; live := live s; reqbuf := reqbuf s; respbuf := respbuf s; srv := srv s; hooks := hooks s; upstream := upstream s; tunnel := tunnel s; crashed := crashed s; msum := msum s; aborted := aborted s; reqerr_h := reqerr_h s; req_fin := req_fin s; resp_fin := resp_fin s; venv := venv s; vgap := vgap s |}.
-Definition upd_ferr (v : option bool) (s : stream) : stream := {| sid := sid s; cs := cs s; ss := ss s; pc := pc s; queue := queue s; req := req s; req_content := req_content s; req_stream := req_stream s; fresp := fresp s; ferr := v; live := live s; reqbuf := reqbuf s; respbuf := respbuf s; srv := srv s; hooks := hooks s; upstream := upstream s; tunnel := tunnel s; crashed := crashed s; msum := msum s; aborted := aborted s; reqerr_h := reqerr_h s; req_fin := req_fin s; resp_fin := resp_fin s; venv := venv s; vgap := vgap s |}.
-Definition upd_live (v : bool) (s : stream) : stream := {| sid := sid s; cs := cs s; ss := ss s; pc := pc s; queue := queue s; req := req s; req_content := req_content s; req_stream := req_stream s; fresp := fresp s; ferr := ferr s; live := v; reqbuf := reqbuf s; respbuf := respbuf s; srv := srv s; hooks := hooks s; upstream := upstream s; tunnel := tunnel s; crashed := crashed s; msum := msum s; aborted := aborted s; reqerr_h := reqerr_h s; req_fin := req_fin s; resp_fin := resp_fin s; venv := venv s; vgap := vgap s |}.
-Definition upd_reqbuf (v : bytes) (s : stream) : stream := {| sid := sid s; cs := cs s; ss := ss s; pc := pc s; queue := queue s; req := req s; req_content := req_content s; req_stream := req_stream s; fresp := fresp s; ferr := ferr s; live := live s; reqbuf := v; respbuf := respbuf s; srv := srv s; hooks := hooks s; upstream := upstream s; tunnel := tunnel s; crashed := crashed s; msum := msum s; aborted := aborted s; reqerr_h := reqerr_h s; req_fin := req_fin s; resp_fin := resp_fin s; venv := venv s; vgap := vgap s |}.
-Definition upd_respbuf (v : bytes) (s : stream) : stream := {| sid := sid s; cs := cs s; ss := ss s; pc := pc s; queue := queue s; req := req s; req_content := req_content s; req_stream := req_stream s; fresp := fresp s; ferr := ferr s; live := live s; reqbuf := reqbuf s; respbuf := v; srv := srv s; hooks := hooks s; upstream := upstream s; tunnel := tunnel s; crashed := crashed s; msum := msum s; aborted := aborted s; reqerr_h := reqerr_h s; req_fin := req_fin s; resp_fin := resp_fin s; venv := venv s; vgap := vgap s |}.
-Definition upd_srv (v : option N) (s : stream) : stream := {| sid := sid s; cs := cs s; ss := ss s; pc := pc s; queue := queue s; req := req s; req_content := req_content s; req_stream := req_stream s; fresp := fresp s; ferr := ferr s; live := live s; reqbuf := reqbuf s; respbuf := respbuf s; srv := v; hooks := hooks s; upstream := upstream s; tunnel := tunnel s; crashed := crashed s; msum := msum s; aborted := aborted s; reqerr_h := reqerr_h s; req_fin := req_fin s; resp_fin := resp_fin s; venv := venv s; vgap := vgap s |}.
-Definition upd_hooks (v : list hook) (s : stream) : stream := {| sid := sid s; cs := cs s; ss := ss s; pc := pc s; queue := queue s; req := req s; req_content := req_content s; req_stream := req_stream s; fresp := fresp s; ferr := ferr s; live := live s; reqbuf := reqbuf s; respbuf := respbuf s; srv := srv s; hooks := v; upstream := upstream s; tunnel := tunnel s; crashed := crashed s; msum := msum s; aborted := aborted s; reqerr_h := reqerr_h s; req_fin := req_fin s; resp_fin := resp_fin s; venv := venv s; vgap := vgap s |}.
-Definition upd_upstream (v : bool) (s : stream) : stream := {| sid := sid s; cs := cs s; ss := ss s; pc := pc s; queue := queue s; req := req s; req_content := req_content s; req_stream := req_stream s; fresp := fresp s; ferr := ferr s; live := live s; reqbuf := reqbuf s; respbuf := respbuf s; srv := srv s; hooks := hooks s; upstream := v; tunnel := tunnel s; crashed := crashed s; msum := msum s; aborted := aborted s; reqerr_h := reqerr_h s; req_fin := req_fin s; resp_fin := resp_fin s; venv := venv s; vgap := vgap s |}.
-Definition upd_tunnel (v : bool) (s : stream) : stream := {| sid := sid s; cs := cs s; ss := ss s; pc := pc s; queue := queue s; req := req s; req_content := req_content s; req_stream := req_stream s; fresp := fresp s; ferr := ferr s; live := live s; reqbuf := reqbuf s; respbuf := respbuf s; srv := srv s; hooks := hooks s; upstream := upstream s; tunnel := v; crashed := crashed s; msum := msum s; aborted := aborted s; reqerr_h := reqerr_h s; req_fin := req_fin s; resp_fin := resp_fin s; venv := venv s; vgap := vgap s |}.
-Definition upd_crashed (v : bool) (s : stream) : stream := {| sid := sid s; cs := cs s; ss := ss s; pc := pc s; queue := queue s; req := req s; req_content := req_content s; req_stream := req_stream s; fresp := fresp s; ferr := ferr s; live := live s; reqbuf := reqbuf s; respbuf := respbuf s; srv := srv s; hooks := hooks s; upstream := upstream s; tunnel := tunnel s; crashed := v; msum := msum s; aborted := aborted s; reqerr_h := reqerr_h s; req_fin := req_fin s; resp_fin := resp_fin s; venv := venv s; vgap := vgap s |}.
-Definition upd_msum (v : mstate) (s : stream) : stream := {| sid := sid s; cs := cs s; ss := ss s; pc := pc s; queue := queue s; req := req s; req_content := req_content s; req_stream := req_stream s; fresp := fresp s; ferr := ferr s; live := live s; reqbuf := reqbuf s; respbuf := respbuf s; srv := srv s; hooks := hooks s; upstream := upstream s; tunnel := tunnel s; crashed := crashed s; msum := v; aborted := aborted s; reqerr_h := reqerr_h s; req_fin := req_fin s; resp_fin := resp_fin s; venv := venv s; vgap := vgap s |}.
-Definition upd_aborted (v : bool) (s : stream) : stream := {| sid := sid s; cs := cs s; ss := ss s; pc := pc s; queue := queue s; req := req s; req_content := req_content s; req_stream := req_stream s; fresp := fresp s; ferr := ferr s; live := live s; reqbuf := reqbuf s; respbuf := respbuf s; srv := srv s; hooks := hooks s; upstream := upstream s; tunnel := tunnel s; crashed := crashed s; msum := msum s; aborted := v; reqerr_h := reqerr_h s; req_fin := req_fin s; resp_fin := resp_fin s; venv := venv s; vgap := vgap s |}.
-Definition upd_reqerr_h (v : bool) (s : stream) : stream := {| sid := sid s; cs := cs s; ss := ss s; pc := pc s; queue := queue s; req := req s; req_content := req_content s; req_stream := req_stream s; fresp := fresp s; ferr := ferr s; live := live s; reqbuf := reqbuf s; respbuf := respbuf s; srv := srv s; hooks := hooks s; upstream := upstream s; tunnel := tunnel s; crashed := crashed s; msum := msum s; aborted := aborted s; reqerr_h := v; req_fin := req_fin s; resp_fin := resp_fin s; venv := venv s; vgap := vgap s |}.
-Definition upd_req_fin (v : bool) (s : stream) : stream := {| sid := sid s; cs := cs s; ss := ss s; pc := pc s; queue := queue s; req := req s; req_content := req_content s; req_stream := req_stream s; fresp := fresp s; ferr := ferr s; live := live s; reqbuf := reqbuf s; respbuf := respbuf s; srv := srv s; hooks := hooks s; upstream := upstream s; tunnel := tunnel s; crashed := crashed s; msum := msum s; aborted := aborted s; reqerr_h := reqerr_h s; req_fin := v; resp_fin := resp_fin s; venv := venv s; vgap := vgap s |}.
-Definition upd_resp_fin (v : bool) (s : stream) : stream := {| sid := sid s; cs := cs s; ss := ss s; pc := pc s; queue := queue s; req := req s; req_content := req_content s; req_stream := req_stream s; fresp := fresp s; ferr := ferr s; live := live s; reqbuf := reqbuf s; respbuf := respbuf s; srv := srv s; hooks := hooks s; upstream := upstream s; tunnel := tunnel s; crashed := crashed s; msum := msum s; aborted := aborted s; reqerr_h := reqerr_h s; req_fin := req_fin s; resp_fin := v; venv := venv s; vgap := vgap s |}.
-Definition upd_venv (v : bool) (s : stream) : stream := {| sid := sid s; cs := cs s; ss := ss s; pc := pc s; queue := queue s; req := req s; req_content := req_content s; req_stream := req_stream s; fresp := fresp s; ferr := ferr s; live := live s; reqbuf := reqbuf s; respbuf := respbuf s; srv := srv s; hooks := hooks s; upstream := upstream s; tunnel := tunnel s; crashed := crashed s; msum := msum s; aborted := aborted s; reqerr_h := reqerr_h s; req_fin := req_fin s; resp_fin := resp_fin s; venv := v; vgap := vgap s |}.
-Definition upd_vgap (v : bool) (s : stream) : stream := {| sid := sid s; cs := cs s; ss := ss s; pc := pc s; queue := queue s; req := req s; req_content := req_content s; req_stream := req_stream s; fresp := fresp s; ferr := ferr s; live := live s; reqbuf := reqbuf s; respbuf := respbuf s; srv := srv s; hooks := hooks s; upstream := upstream s; tunnel := tunnel s; crashed := crashed s; msum := msum s; aborted := aborted s; reqerr_h := reqerr_h s; req_fin := req_fin s; resp_fin := resp_fin s; venv := venv s; vgap := v |}.
+Definition upd_sid (v : N) (s : stream) : stream := {| sid := v; cs := cs s; ss := ss s; pc := pc s; queue := queue s; req := req s; req_content := req_content s; req_stream := req_stream s; fresp := fresp s; ferr := ferr s; live := live s; reqbuf := reqbuf s; respbuf := respbuf s; srv := srv s; hooks := hooks s; upstream := upstream s; tunnel := tunnel s; crashed := crashed s; msum := msum s; aborted := aborted s; reqerr_h := reqerr_h s; req_fin := req_fin s; resp_fin := resp_fin s; venv := venv s; fws := fws s |}.
+Definition upd_cs (v : sst) (s : stream) : stream := {| sid := sid s; cs := v; ss := ss s; pc := pc s; queue := queue s; req := req s; req_content := req_content s; req_stream := req_stream s; fresp := fresp s; ferr := ferr s; live := live s; reqbuf := reqbuf s; respbuf := respbuf s; srv := srv s; hooks := hooks s; upstream := upstream s; tunnel := tunnel s; crashed := crashed s; msum := msum s; aborted := aborted s; reqerr_h := reqerr_h s; req_fin := req_fin s; resp_fin := resp_fin s; venv := venv s; fws := fws s |}.
+Definition upd_ss (v : sst) (s : stream) : stream := {| sid := sid s; cs := cs s; ss := v; pc := pc s; queue := queue s; req := req s; req_content := req_content s; req_stream := req_stream s; fresp := fresp s; ferr := ferr s; live := live s; reqbuf := reqbuf s; respbuf := respbuf s; srv := srv s; hooks := hooks s; upstream := upstream s; tunnel := tunnel s; crashed := crashed s; msum := msum s; aborted := aborted s; reqerr_h := reqerr_h s; req_fin := req_fin s; resp_fin := resp_fin s; venv := venv s; fws := fws s |}.
+Definition upd_pc (v : option await) (s : stream) : stream := {| sid := sid s; cs := cs s; ss := ss s; pc := v; queue := queue s; req := req s; req_content := req_content s; req_stream := req_stream s; fresp := fresp s; ferr := ferr s; live := live s; reqbuf := reqbuf s; respbuf := respbuf s; srv := srv s; hooks := hooks s; upstream := upstream s; tunnel := tunnel s; crashed := crashed s; msum := msum s; aborted := aborted s; reqerr_h := reqerr_h s; req_fin := req_fin s; resp_fin := resp_fin s; venv := venv s; fws := fws s |}.
+Definition upd_queue (v : list hev) (s : stream) : stream := {| sid := sid s; cs := cs s; ss := ss s; pc := pc s; queue := v; req := req s; req_content := req_content s; req_stream := req_stream s; fresp := fresp s; ferr := ferr s; live := live s; reqbuf := reqbuf s; respbuf := respbuf s; srv := srv s; hooks := hooks s; upstream := upstream s; tunnel := tunnel s; crashed := crashed s; msum := msum s; aborted := aborted s; reqerr_h := reqerr_h s; req_fin := req_fin s; resp_fin := resp_fin s; venv := venv s; fws := fws s |}.
+Definition upd_req (v : option head) (s : stream) : stream := {| sid := sid s; cs := cs s; ss := ss s; pc := pc s; queue := queue s; req := v; req_content := req_content s; req_stream := req_stream s; fresp := fresp s; ferr := ferr s; live := live s; reqbuf := reqbuf s; respbuf := respbuf s; srv := srv s; hooks := hooks s; upstream := upstream s; tunnel := tunnel s; crashed := crashed s; msum := msum s; aborted := aborted s; reqerr_h := reqerr_h s; req_fin := req_fin s; resp_fin := resp_fin s; venv := venv s; fws := fws s |}.
+Definition upd_req_content (v : bytes) (s : stream) : stream := {| sid := sid s; cs := cs s; ss := ss s; pc := pc s; queue := queue s; req := req s; req_content := v; req_stream := req_stream s; fresp := fresp s; ferr := ferr s; live := live s; reqbuf := reqbuf s; respbuf := respbuf s; srv := srv s; hooks := hooks s; upstream := upstream s; tunnel := tunnel s; crashed := crashed s; msum := msum s; aborted := aborted s; reqerr_h := reqerr_h s; req_fin := req_fin s; resp_fin := resp_fin s; venv := venv s; fws := fws s |}.
+Definition upd_req_stream (v : bool) (s : stream) : stream := {| sid := sid s; cs := cs s; ss := ss s; pc := pc s; queue := queue s; req := req s; req_content := req_content s; req_stream := v; fresp := fresp s; ferr := ferr s; live := live s; reqbuf := reqbuf s; respbuf := respbuf s; srv := srv s; hooks := hooks s; upstream := upstream s; tunnel := tunnel s; crashed := crashed s; msum := msum s; aborted := aborted s; reqerr_h := reqerr_h s; req_fin := req_fin s; resp_fin := resp_fin s; venv := venv s; fws := fws s |}.
+Definition upd_fresp (v : option resp) (s : stream) : stream := {| sid := sid s; cs := cs s; ss := ss s; pc := pc s; queue := queue s; req := req s; req_content := req_content s; req_stream := req_stream s; fresp := v; ferr := ferr s; live := live s; reqbuf := reqbuf s; respbuf := respbuf s; srv := srv s; hooks := hooks s; upstream := upstream s; tunnel := tunnel s; crashed := crashed s; msum := msum s; aborted := aborted s; reqerr_h := reqerr_h s; req_fin := req_fin s; resp_fin := resp_fin s; venv := venv s; fws := fws s |}.
+Definition upd_ferr (v : option bool) (s : stream) : stream := {| sid := sid s; cs := cs s; ss := ss s; pc := pc s; queue := queue s; req := req s; req_content := req_content s; req_stream := req_stream s; fresp := fresp s; ferr := v; live := live s; reqbuf := reqbuf s; respbuf := respbuf s; srv := srv s; hooks := hooks s; upstream := upstream s; tunnel := tunnel s; crashed := crashed s; msum := msum s; aborted := aborted s; reqerr_h := reqerr_h s; req_fin := req_fin s; resp_fin := resp_fin s; venv := venv s; fws := fws s |}.
+Definition upd_live (v : bool) (s : stream) : stream := {| sid := sid s; cs := cs s; ss := ss s; pc := pc s; queue := queue s; req := req s; req_content := req_content s; req_stream := req_stream s; fresp := fresp s; ferr := ferr s; live := v; reqbuf := reqbuf s; respbuf := respbuf s; srv := srv s; hooks := hooks s; upstream := upstream s; tunnel := tunnel s; crashed := crashed s; msum := msum s; aborted := aborted s; reqerr_h := reqerr_h s; req_fin := req_fin s; resp_fin := resp_fin s; venv := venv s; fws := fws s |}.
+Definition upd_reqbuf (v : bytes) (s : stream) : stream := {| sid := sid s; cs := cs s; ss := ss s; pc := pc s; queue := queue s; req := req s; req_content := req_content s; req_stream := req_stream s; fresp := fresp s; ferr := ferr s; live := live s; reqbuf := v; respbuf := respbuf s; srv := srv s; hooks := hooks s; upstream := upstream s; tunnel := tunnel s; crashed := crashed s; msum := msum s; aborted := aborted s; reqerr_h := reqerr_h s; req_fin := req_fin s; resp_fin := resp_fin s; venv := venv s; fws := fws s |}.
+Definition upd_respbuf (v : bytes) (s : stream) : stream := {| sid := sid s; cs := cs s; ss := ss s; pc := pc s; queue := queue s; req := req s; req_content := req_content s; req_stream := req_stream s; fresp := fresp s; ferr := ferr s; live := live s; reqbuf := reqbuf s; respbuf := v; srv := srv s; hooks := hooks s; upstream := upstream s; tunnel := tunnel s; crashed := crashed s; msum := msum s; aborted := aborted s; reqerr_h := reqerr_h s; req_fin := req_fin s; resp_fin := resp_fin s; venv := venv s; fws := fws s |}.
+Definition upd_srv (v : option N) (s : stream) : stream := {| sid := sid s; cs := cs s; ss := ss s; pc := pc s; queue := queue s; req := req s; req_content := req_content s; req_stream := req_stream s; fresp := fresp s; ferr := ferr s; live := live s; reqbuf := reqbuf s; respbuf := respbuf s; srv := v; hooks := hooks s; upstream := upstream s; tunnel := tunnel s; crashed := crashed s; msum := msum s; aborted := aborted s; reqerr_h := reqerr_h s; req_fin := req_fin s; resp_fin := resp_fin s; venv := venv s; fws := fws s |}.
+Definition upd_hooks (v : list hook) (s : stream) : stream := {| sid := sid s; cs := cs s; ss := ss s; pc := pc s; queue := queue s; req := req s; req_content := req_content s; req_stream := req_stream s; fresp := fresp s; ferr := ferr s; live := live s; reqbuf := reqbuf s; respbuf := respbuf s; srv := srv s; hooks := v; upstream := upstream s; tunnel := tunnel s; crashed := crashed s; msum := msum s; aborted := aborted s; reqerr_h := reqerr_h s; req_fin := req_fin s; resp_fin := resp_fin s; venv := venv s; fws := fws s |}.
+Definition upd_upstream (v : bool) (s : stream) : stream := {| sid := sid s; cs := cs s; ss := ss s; pc := pc s; queue := queue s; req := req s; req_content := req_content s; req_stream := req_stream s; fresp := fresp s; ferr := ferr s; live := live s; reqbuf := reqbuf s; respbuf := respbuf s; srv := srv s; hooks := hooks s; upstream := v; tunnel := tunnel s; crashed := crashed s; msum := msum s; aborted := aborted s; reqerr_h := reqerr_h s; req_fin := req_fin s; resp_fin := resp_fin s; venv := venv s; fws := fws s |}.
+Definition upd_tunnel (v : bool) (s : stream) : stream := {| sid := sid s; cs := cs s; ss := ss s; pc := pc s; queue := queue s; req := req s; req_content := req_content s; req_stream := req_stream s; fresp := fresp s; ferr := ferr s; live := live s; reqbuf := reqbuf s; respbuf := respbuf s; srv := srv s; hooks := hooks s; upstream := upstream s; tunnel := v; crashed := crashed s; msum := msum s; aborted := aborted s; reqerr_h := reqerr_h s; req_fin := req_fin s; resp_fin := resp_fin s; venv := venv s; fws := fws s |}.
+Definition upd_crashed (v : bool) (s : stream) : stream := {| sid := sid s; cs := cs s; ss := ss s; pc := pc s; queue := queue s; req := req s; req_content := req_content s; req_stream := req_stream s; fresp := fresp s; ferr := ferr s; live := live s; reqbuf := reqbuf s; respbuf := respbuf s; srv := srv s; hooks := hooks s; upstream := upstream s; tunnel := tunnel s; crashed := v; msum := msum s; aborted := aborted s; reqerr_h := reqerr_h s; req_fin := req_fin s; resp_fin := resp_fin s; venv := venv s; fws := fws s |}.
+Definition upd_msum (v : mstate) (s : stream) : stream := {| sid := sid s; cs := cs s; ss := ss s; pc := pc s; queue := queue s; req := req s; req_content := req_content s; req_stream := req_stream s; fresp := fresp s; ferr := ferr s; live := live s; reqbuf := reqbuf s; respbuf := respbuf s; srv := srv s; hooks := hooks s; upstream := upstream s; tunnel := tunnel s; crashed := crashed s; msum := v; aborted := aborted s; reqerr_h := reqerr_h s; req_fin := req_fin s; resp_fin := resp_fin s; venv := venv s; fws := fws s |}.
+Definition upd_aborted (v : bool) (s : stream) : stream := {| sid := sid s; cs := cs s; ss := ss s; pc := pc s; queue := queue s; req := req s; req_content := req_content s; req_stream := req_stream s; fresp := fresp s; ferr := ferr s; live := live s; reqbuf := reqbuf s; respbuf := respbuf s; srv := srv s; hooks := hooks s; upstream := upstream s; tunnel := tunnel s; crashed := crashed s; msum := msum s; aborted := v; reqerr_h := reqerr_h s; req_fin := req_fin s; resp_fin := resp_fin s; venv := venv s; fws := fws s |}.
+Definition upd_reqerr_h (v : bool) (s : stream) : stream := {| sid := sid s; cs := cs s; ss := ss s; pc := pc s; queue := queue s; req := req s; req_content := req_content s; req_stream := req_stream s; fresp := fresp s; ferr := ferr s; live := live s; reqbuf := reqbuf s; respbuf := respbuf s; srv := srv s; hooks := hooks s; upstream := upstream s; tunnel := tunnel s; crashed := crashed s; msum := msum s; aborted := aborted s; reqerr_h := v; req_fin := req_fin s; resp_fin := resp_fin s; venv := venv s; fws := fws s |}.
+Definition upd_req_fin (v : bool) (s : stream) : stream := {| sid := sid s; cs := cs s; ss := ss s; pc := pc s; queue := queue s; req := req s; req_content := req_content s; req_stream := req_stream s; fresp := fresp s; ferr := ferr s; live := live s; reqbuf := reqbuf s; respbuf := respbuf s; srv := srv s; hooks := hooks s; upstream := upstream s; tunnel := tunnel s; crashed := crashed s; msum := msum s; aborted := aborted s; reqerr_h := reqerr_h s; req_fin := v; resp_fin := resp_fin s; venv := venv s; fws := fws s |}.
+Definition upd_resp_fin (v : bool) (s : stream) : stream := {| sid := sid s; cs := cs s; ss := ss s; pc := pc s; queue := queue s; req := req s; req_content := req_content s; req_stream := req_stream s; fresp := fresp s; ferr := ferr s; live := live s; reqbuf := reqbuf s; respbuf := respbuf s; srv := srv s; hooks := hooks s; upstream := upstream s; tunnel := tunnel s; crashed := crashed s; msum := msum s; aborted := aborted s; reqerr_h := reqerr_h s; req_fin := req_fin s; resp_fin := v; venv := venv s; fws := fws s |}.
+Definition upd_venv (v : bool) (s : stream) : stream := {| sid := sid s; cs := cs s; ss := ss s; pc := pc s; queue := queue s; req := req s; req_content := req_content s; req_stream := req_stream s; fresp := fresp s; ferr := ferr s; live := live s; reqbuf := reqbuf s; respbuf := respbuf s; srv := srv s; hooks := hooks s; upstream := upstream s; tunnel := tunnel s; crashed := crashed s; msum := msum s; aborted := aborted s; reqerr_h := reqerr_h s; req_fin := req_fin s; resp_fin := resp_fin s; venv := v; fws := fws s |}.
+Definition upd_fws (v : bool) (s : stream) : stream := {| sid := sid s; cs := cs s; ss := ss s; pc := pc s; queue := queue s; req := req s; req_content := req_content s; req_stream := req_stream s; fresp := fresp s; ferr := ferr s; live := live s; reqbuf := reqbuf s; respbuf := respbuf s; srv := srv s; hooks := hooks s; upstream := upstream s; tunnel := tunnel s; crashed := crashed s; msum := msum s; aborted := aborted s; reqerr_h := reqerr_h s; req_fin := req_fin s; resp_fin := resp_fin s; venv := venv s; fws := v |}.
 Inductive target := TClient | TServer.
 Inductive scmd :=
 | CHook (h : hook) | CSend (t : target) (e : hev) | CGetConn (host : N) | CDrop | CCloseServer | CTunnel | CCrash.
@@ -149,12 +150,12 @@ Definition is_some {A} (o : option A) : bool := match o with Some _ => true | No
 Definition setresp_head : head :=
   mkHead [x48;x54;x54;x50;x2f;x31;x2e;x31;x20;x32;x30;x30;x20;x4f;x4b;x0d;x0a;
           x63;x6f;x6e;x74;x65;x6e;x74;x2d;x6c;x65;x6e;x67;x74;x68;x3a;x20;x32;x0d;x0a;x0d;x0a]
-         MGet (HLen 2) 0 true true false false 200.
+         MGet (HLen 2) 0 true true false false 200 false.
 Definition setresp : resp := mkResp setresp_head [x68;x69] false.
 Definition continue_head : head :=
   mkHead [x48;x54;x54;x50;x2f;x31;x2e;x31;x20;x31;x30;x30;x20;x43;x6f;x6e;x74;x69;x6e;x75;x65;x0d;x0a;x0d;x0a]
-         MGet HNone 0 true true false false 100.
-Definition connect200_head : head := mkHead [] MGet HNone 0 true true false false 200.
+         MGet HNone 0 true true false false 100 false.
+Definition connect200_head : head := mkHead [] MGet HNone 0 true true false false 200 false.
 
 Definition crash (s : stream) : res := (upd_crashed true s, [CCrash]).
 Definition emit_hook (h : hook) (k : await) (s : stream) : res :=
@@ -191,16 +192,25 @@ Definition check_killed (emit : bool) (s : stream) : option res :=
   then Some (if emit then emit_hook HkError AwKilled s1 else finish_killed s1)
   else None.
 
+Definition req_head_or_default (s : stream) : head :=
+  match req s with Some h => h | None => connect200_head end.
+
 (* ---------- flow_done / send_response *)
 Definition flow_done (s : stream) : res :=
-  let s := upd_live false s in
+  let s := if fws s then s else upd_live false s in
   match fresp s with
   | None => crash s
   | Some r => if h_status (r_head r) =? 101 then (upd_tunnel true s, [CTunnel])
               else (s, [CDrop; CSend TClient ERespEOM])
   end.
 Definition send_response (already : bool) (s : stream) : res :=
-  match fresp s with None => crash s | Some _ => emit_hook HkResponse (AwResponse already) s end.
+  match fresp s with
+  | None => crash s
+  | Some r =>
+      (* is_websocket is decided (and flow.websocket set) before the response hook runs *)
+      let is_ws := (h_status (r_head r) =? 101) && h_ws (r_head r) && h_ws (req_head_or_default s) in
+      emit_hook HkResponse (AwResponse already) (if is_ws then upd_fws true s else s)
+  end.
 Definition send_response_cont (already : bool) (s : stream) : res :=
   let s := upd_ss SDone s in
   match check_killed false s with
@@ -252,8 +262,6 @@ Definition start_request_stream (late : option bytes) (s : stream) : res :=
   | None => (upd_pc (Some match late with None => AwConnStreamHdr | Some b => AwConnStreamLate b end) s,
              [CGetConn (req_host s)])
   end.
-Definition req_head_or_default (s : stream) : head :=
-  match req s with Some h => h | None => connect200_head end.
 Definition resume_conn_stream (o : opts) (late : option bytes) (c : option N) (s : stream) : res :=
   match c with
   | None => handle_perr false (Some 502) (match late with None => AfStreamHdr | Some _ => AfStreamLate end) s
@@ -424,7 +432,7 @@ Definition is_req_side (e : hev) : bool :=
   match e with EReqHeaders _ _ | EReqData _ | EReqEOM | EReqErr _ => true | _ => false end.
 Definition is_first (e : hev) : bool := match e with EReqHeaders _ _ => true | _ => false end.
 (* ghost bookkeeping for the event about to be handled: what the connection layers guarantee (venv), the
-   aborted-but-still-fed situation (vgap), and which terminal events have been seen *)
+   aborted-but-still-fed situation (fws), and which terminal events have been seen *)
 Definition note_event (e : hev) (s : stream) : stream :=
   let fresh := sst_eqb (cs s) SWaitReqH && negb (is_some (req s)) in
   let bad_env := (fresh && negb (is_first e)) || (negb fresh && is_first e)
@@ -432,7 +440,7 @@ Definition note_event (e : hev) (s : stream) : stream :=
                  || (is_req_side e && reqerr_h s)
                  || match e with EReqData [] | ERespData [] => true | _ => false end in
   let s1 := if bad_env then upd_venv true s else s in
-  let s2 := if negb (is_req_side e) && aborted s then upd_vgap true s1 else s1 in
+  let s2 := s1 in
   match e with
   | EReqErr _ => upd_req_fin true (upd_reqerr_h true s2)
   | EReqEOM => upd_req_fin true s2
